@@ -565,3 +565,143 @@ def waitmacro_sites(db, unit='qmail-rspawn.c'):
     out['wait_crashed-iff-killed-by-a-signal(core-or-not)'] = (bad_c is None, 'wait.h', bad_c or '%d status words' % len(words), [])
     out['wait_exitcode-is-the-exit-code(0..255)'] = (bad_e is None, 'wait.h', bad_e or '256 exit codes', [])
     return out
+
+
+# =============================================================================== more library tables
+def _run_conc(db, rep, prog, fn, st, entry, H=None):
+    H = H or Conc(entry)
+    e = Engine(db, prog, H, max_states=60000)
+    fid = e.frame_id(fn)
+    store = {}
+    for k, v in st.items():
+        store[('%s::%s' % (fid, fn.params[k])) if isinstance(k, int) else k] = v
+    e.run(fn, store)
+    rep.count_states(e.states, e.transitions)
+    return H
+
+
+def case_diffb_sites(db, rep, prog):
+    """case_diffb(s,len,t): 0 iff the first len bytes agree up to the case of A-Z; nothing beyond len is looked at"""
+    fn = db.fn('case_diffb.c', 'case_diffb')
+    bad = None
+    n = 0
+    pairs = [(b'', b'', 0), (b'a', b'A', 1), (b'a', b'b', 1), (b'Z', b'z', 1), (b'@', b'`', 1), (b'[', b'{', 1), (b'ab', b'aB', 2), (b'ab', b'ac', 2), (b'ab', b'ac', 1), (b'x', b'y', 0),
+             (b':tag', b'Qtag', 0), (b'AZaz', b'azAZ', 4), (b'\xc1', b'\xe1', 1)]
+    for s_, t_, ln in pairs:
+        st = {0: fs(('&', 'S[0]')), 1: fs(ln), 2: fs(('&', 'T[0]'))}
+        st.update(conc_string_cells('S', s_))
+        st.update(conc_string_cells('T', t_))
+        H = _run_conc(db, rep, prog, fn, st, 'case_diffb')
+        n += 1
+        if len(H.ends) != 1:
+            raise AnalysisBroken('case_diffb: %d ends' % len(H.ends))
+        got = one(H.ends[0][1])
+        fold = lambda b_: bytes((c + 32 if 65 <= c <= 90 else c) for c in b_[:ln])
+        want_equal = fold(s_) == fold(t_)
+        if (got == 0) != want_equal and bad is None:
+            bad = 'case_diffb(%r, %d, %r) is %s; documented: %s' % (s_, ln, t_, got, 'equal (0)' if want_equal else 'different (non-zero)')
+    return {'case_diffb:0-iff-equal-up-to-case-over-exactly-len-bytes': (bad is None, 'case_diffb.c:case_diffb', bad or '%d pairs' % n, [])}
+
+
+def byte_rchr_sites(db, rep, prog):
+    """byte_rchr(s,n,c): index of the LAST c in s[0..n), or n"""
+    fn = db.fn('byte_rchr.c', 'byte_rchr')
+    bad = None
+    n_runs = 0
+    import itertools
+    for n in range(0, 7):
+        for t in (itertools.product(b'@x', repeat=n) if n <= 5 else [b'xxxxx@', b'@xxxxx', b'xx@x@x', b'xxxxxx']):
+            data = bytes(t)
+            st = {0: fs(('&', 'S[0]')), 1: fs(n), 2: fs(ord('@'))}
+            st.update(conc_string_cells('S', data + b'@'))           # a match just behind the range must not count
+            H = _run_conc(db, rep, prog, fn, st, 'byte_rchr')
+            n_runs += 1
+            if len(H.ends) != 1:
+                raise AnalysisBroken('byte_rchr: %d ends' % len(H.ends))
+            got = one(H.ends[0][1])
+            want = data.rfind(b'@') if b'@' in data else n
+            if got != want and bad is None:
+                bad = 'byte_rchr(%r, %d, "@") is %s; documented %d' % (data, n, got, want)
+    return {'byte_rchr:index-of-the-last-match-or-n': (bad is None, 'byte_rchr.c:byte_rchr', bad or '%d strings' % n_runs, [])}
+
+
+class SlurpHooks(Conc):
+    def __init__(self, script):
+        super().__init__('slurpclose')
+        self.script = script
+
+    def prim_stralloc_readyplus(self, E, x, args):
+        sa = one(args[0])
+        return [Outcome(ret=fs(1), sets={sa[1] + '.s': fs(('&', sa[1] + '.s[0]'))})]
+
+    def prim_read(self, E, x, args):
+        from qv.esp import ptr_add
+        k = one(E.get('$k')) or 0
+        if k >= len(self.script):
+            return 'noreturn'
+        r = self.script[k]
+        sets = {'$k': fs(k + 1)}
+        if isinstance(r, tuple):
+            sets['$errno'] = fs(r[1])
+            return [Outcome(ret=fs(-1), sets=sets)]
+        bp = one(args[1])
+        for i, b in enumerate(r):
+            sets[ptr_add(bp, i)[1]] = fs(b)
+        return [Outcome(ret=fs(len(r)), sets=sets)]
+
+    def prim_close(self, E, x, args):
+        return [Outcome(ret=fs(0), sets={'$closed': fs((one(E.get('$closed')) or 0) + 1)})]
+
+    def materialize(self, E, path):
+        if path in ('G:error_intr', 'E:error_intr'):
+            return fs(4)
+        return TOP
+
+
+def slurpclose_sites(db, rep, prog):
+    """slurpclose(fd,sa,bufsize): 0 and the whole file at end of file; -1 on a read error (EINTR retried); the descriptor closed once"""
+    fn = db.fn('slurpclose.c', 'slurpclose')
+    bad = None
+    scen = [([b'abc', b'de', b''], 0, b'abcde'), ([b''], 0, b''), ([(-1, 5)], -1, None), ([b'abc', (-1, 5)], -1, None), ([(-1, 4), b'ab', (-1, 4), b''], 0, b'ab'), ([b'ab', (-1, 13)], -1, None)]
+    for script, want_r, want_data in scen:
+        H = SlurpHooks(script)
+        H = _run_conc(db, rep, prog, fn, {0: fs(7), 1: fs(('&', 'SA')), 2: fs(8), 'SA.len': fs(0)}, 'slurpclose', H)
+        if len(H.ends) != 1:
+            raise AnalysisBroken('slurpclose: %d ends for the read script %s' % (len(H.ends), script))
+        store, val, tr = H.ends[0]
+        got_r = one(val)
+        n = one(store.get('SA.len'))
+        data = bytes((one(store.get('SA.s[%d]' % k)) or 0) & 255 for k in range(n)) if isinstance(n, int) and 0 <= n < 64 else None
+        closed = one(store.get('$closed')) or 0
+        if (got_r != want_r or (want_data is not None and data != want_data) or closed != 1) and bad is None:
+            bad = ('reads %s: slurpclose() returns %s with %r collected and %d close() call(s); documented: %s%s, one close' %
+                   ([('error %d' % r[1]) if isinstance(r, tuple) else r for r in script], got_r, data, closed, want_r, (' with %r' % want_data) if want_data is not None else ''), tr)
+    return {'slurpclose:0=whole-file,-1=read-error,EINTR-retried': (bad is None, 'slurpclose.c:slurpclose', bad[0] if bad else '%d read scripts' % len(scen), bad[1] if bad else [])}
+
+
+def sig_blocknone_sites(db, rep, prog):
+    """sig_blocknone(): the process signal mask is SET to the empty set (an inherited mask must not survive)"""
+    fn = db.fn('sig_block.c', 'sig_blocknone')
+    calls = []
+
+    class H(Conc):
+        def prim_sigemptyset(self, E, x, args):
+            return [Outcome(ret=fs(0), sets={'$emptied': args[0]})]
+
+        def prim_sigaddset(self, E, x, args):
+            return [Outcome(ret=fs(0), sets={'$added': fs(1)})]
+
+        prim_sigfillset = prim_sigaddset
+
+        def prim_sigprocmask(self, E, x, args):
+            calls.append((one(args[0]), args[1] == E.get('$emptied') and not one(E.get('$added')), x.where))
+            return [Outcome(ret=fs(0))]
+
+        def prim_sigsetmask(self, E, x, args):
+            calls.append((2 if one(args[0]) == 0 else -1, True, x.where))
+            return [Outcome(ret=fs(0))]
+    _run_conc(db, rep, prog, fn, {}, 'sig_blocknone', H('sig_blocknone'))
+    SIG_SETMASK = 2
+    ok = len(calls) == 1 and calls[0][0] == SIG_SETMASK and calls[0][1]
+    return {'sig_blocknone:sets-the-empty-mask': (ok, calls[0][2] if calls else 'sig_block.c:sig_blocknone',
+            'the mask operations are %s (how, empty set); documented: one sigprocmask(SIG_SETMASK = 2, empty set): with SIG_UNBLOCK or SIG_BLOCK of the empty set an inherited mask survives and a blocked SIGALRM never ends a stalled qmail-queue' % [(c[0], c[1]) for c in calls], [])}
